@@ -19,7 +19,8 @@ var replayTests = map[string]string{
 	"wire:buildProviderMap":                "TestReplay_frontend",
 	"wire:buildProviderMap$1":              "TestReplay_frontend",
 	"wire:verifyArgsUsed":                  "TestReplay_verifyArgsUsed",
-	"wire:checkField":                      "TestReplay_checkField",
+	"wire:checkField":                      "TestReplay_frontend",
+	"wire:isPrevented":                     "TestReplay_frontend",
 	"wire:solve":                           "TestReplay_solve",
 	"wire:(*gen).inject":                   "TestReplay_inject",
 	"wire:processStructProvider":           "TestReplay_frontend",
